@@ -13,8 +13,21 @@ par clang -c -O1 -g $SAN -fno-builtin -Wno-implicit-function-declaration -I$REPO
 par clang++ -std=c++17 -c -O1 -g $DEF -I$REPO -I$MC -I$H $H/c06_printf.cpp -o $BUILD/h.o
 par clang++ -std=c++17 -c -O0 $DEF -I$REPO -I$MC -I$H $H/c06_dispatch.cpp -o $BUILD/d.o
 par clang++ -std=c++17 -O2 -c -I$MC $MC/mc.cpp -o $BUILD/mc.o
+# re-entrancy run: the engine and its libc entry points under ThreadSanitizer, two threads on the controlled
+# scheduler (sched.cpp and mc.cpp stay uninstrumented: TSan then sees only what the code under test does)
+TF="-O1 -g -fsanitize=thread -fno-omit-frame-pointer -I$REPO -I$MC"
+par gcc -c $TF $REPO/igris/util/printf_impl.c -o $BUILD/printf_impl_tsan.o
+par gcc -c $TF -fno-builtin -Wno-implicit-function-declaration $REPO/compat/libc/stdio/sprintf.c -o $BUILD/sprintf_tsan.o
+par gcc -c $TF -fno-builtin -Wno-implicit-function-declaration $REPO/compat/libc/stdio/fdprintf.c -o $BUILD/fdprintf_tsan.o
+par g++ -std=c++17 -c $TF -DREENT_ID='"C06"' $H/c06_reentrancy.cpp -o $BUILD/h_tsan.o
+par g++ -std=c++17 -O2 -g -I$MC -c $MC/sched/sched.cpp -o $BUILD/sched.o
+par g++ -std=c++17 -O2 -c -I$MC $MC/mc.cpp -o $BUILD/mc_gcc.o
 parwait
+objcopy --redefine-sym sprintf=igc_sprintf --redefine-sym vsprintf=igc_vsprintf --redefine-sym snprintf=igc_snprintf $BUILD/sprintf_tsan.o
+objcopy --redefine-sym fdprintf=igc_fdprintf --redefine-sym vfdprintf=igc_vfdprintf --redefine-sym fdputc=igc_fdputc $BUILD/fdprintf_tsan.o
+g++ -fsanitize=thread $BUILD/h_tsan.o $BUILD/printf_impl_tsan.o $BUILD/sprintf_tsan.o $BUILD/fdprintf_tsan.o $BUILD/sched.o $BUILD/mc_gcc.o -lm -ldl -lpthread -o $BUILD/c06_tsan
 objcopy --redefine-sym sprintf=igc_sprintf --redefine-sym vsprintf=igc_vsprintf --redefine-sym snprintf=igc_snprintf $BUILD/sprintf.o
 objcopy --redefine-sym fdprintf=igc_fdprintf --redefine-sym vfdprintf=igc_vfdprintf --redefine-sym fdputc=igc_fdputc $BUILD/fdprintf.o
 clang++ $SAN $BUILD/h.o $BUILD/d.o $BUILD/printf_impl.o $BUILD/sprintf.o $BUILD/fdprintf.o $BUILD/mc.o -o $BUILD/c06
 echo "printf $BUILD/c06" > $BUILD/runs.txt
+echo "reentrancy $BUILD/c06_tsan" >> $BUILD/runs.txt
